@@ -161,10 +161,11 @@ def text_of(htmltext):
     return "".join(p.out)
 
 
+HEAD_PLUGINS = ["strikethrough", "mark", "insert", "superscript", "subscript", "math", "ruby", "spoiler"]
 HEAD_TEXTS = ["alpha", "beta *em* gamma", "`code` here", "a **strong** b", "x &amp; y", "[link](http://u.v) z", "tail <b>raw</b> t",
               "q < r", "plain words here", "![img](i.png) cap", "one\\*two", "e ~~s~~ f", "",
               "c <!-- x > y --> d", "<!-- a --> b <i>c</i>", "e <!-- --> f <!-- > -->", "x <a href=\"u\">l</a> y", "<span class=\"k\">s</span> t <!-- <b> -->", "[l](/u \"a>b\") m", "![a > b](/i.png) n",
-              "[foo][bar] and [baz]", "see [baz] x", "<span title=\"a>b\">x</span> y", "foo <!-- a >\n b --> bar", "<i data-x='>'>k</i> l"]
+              "[foo][bar] and [baz]", "see [baz] x", "==Breaking== changes", "H~2~O and x^2^", "a ^^ins^^ b", "$e=mc$ q", "[ruby(rt)] r", ">!sp!< s", "plain = sign", "1 + 1 = 2", "<span title=\"a>b\">x</span> y", "foo <!-- a >\n b --> bar", "<i data-x='>'>k</i> l"]
 
 
 def heading_doc(rng):
@@ -192,8 +193,8 @@ def heading_doc(rng):
 def expected_items(doc, lo, hi, all_ids=False, escape=True):
     """independent: from the token list of a hook-free parser"""
     import mistune
-    ast = mistune.create_markdown(renderer="ast", plugins=["strikethrough"])(doc)
-    hmd = mistune.create_markdown(escape=escape, plugins=["strikethrough"])
+    ast = mistune.create_markdown(renderer="ast", plugins=HEAD_PLUGINS)(doc)
+    hmd = mistune.create_markdown(escape=escape, plugins=HEAD_PLUGINS)
     heads = [t for t in ast if t["type"] == "heading"]
     if not all_ids:
         heads = [t for t in heads if lo <= t["attrs"]["level"] <= hi]
@@ -215,7 +216,7 @@ def hook_part(ctx, n_docs):
         doc = heading_doc(ctx.rng)
         lo = ctx.rng.randint(1, 4); hi = ctx.rng.randint(lo, 6)
         esc = ctx.rng.random() < 0.65       # with escaping off raw tags and comments reach the heading HTML, and "markup removed" must remove them
-        md = mistune.create_markdown(escape=esc, plugins=["strikethrough"])
+        md = mistune.create_markdown(escape=esc, plugins=HEAD_PLUGINS)
         add_toc_hook(md, lo, hi)
         try:
             html, state = md.parse(doc)
@@ -254,7 +255,8 @@ def directive_part(ctx, n_docs):
             lo = ctx.rng.randint(1, 3); hi = ctx.rng.randint(lo, 3)
             ranges.append((lo, hi))
             if fenced:
-                head = "```{toc} Contents\n:min-level: %d\n:max-level: %d\n```\n\n" % (lo, hi)
+                sp1, sp2 = ctx.rng.choice([" ", " ", "", "  "]), ctx.rng.choice([" ", " ", "", "\t"])       # the blank after ":name:" is optional
+                head = "```{toc} Contents\n:min-level:%s%d\n:max-level:%s%d\n```\n\n" % (sp1, lo, sp2, hi)
             else:
                 head = ".. toc:: Contents\n   :min-level: %d\n   :max-level: %d\n\n" % (lo, hi)
             if ctx.rng.random() < 0.6:
@@ -263,7 +265,7 @@ def directive_part(ctx, n_docs):
             else:
                 parts.append("\n" + head)
         doc = "".join(parts)
-        md = mistune.create_markdown(escape=True, plugins=["strikethrough", d])
+        md = mistune.create_markdown(escape=True, plugins=HEAD_PLUGINS + [d])
         try:
             html = md(doc)
         except Exception as e:
